@@ -457,6 +457,21 @@ def _replay_sequences():
             bad.append(f"target ({method}): passing count {a1[2]} vs reference {npass}")
         if abs(a2[0] - a1[0]) > 1e-12 * abs(a1[0]) or abs(a2[1] - a1[1]) > 1e-12 * abs(a1[1]):
             bad.append(f"target ({method}): second call gives {a2[0]} / {a2[1]} instead of {a1[0]} / {a1[1]}")
+        # dark-sky cut: a source whose verdict depends on the event time; the cut applies to the optical channel only, is
+        # evaluated at each kept event's own time and can only remove events
+        t.horizon_mask = np.arange(M + 5) < M + 2
+        t.volume_mask = np.arange(M + 2) >= 2  # M kept instants: times 2 .. M+1
+        dark_of = lambda tt: (np.asarray(tt) % 3) != 0  # noqa
+        t.too_source = type("Src", (), {"sun_moon_cut": staticmethod(lambda tt: dark_of(tt))})()
+        t.sun_moon_cut = True
+        with np.errstate(all="ignore"):
+            d1 = t.mcintegral(trig, cosc, pex, 2.0, 1.0, 1.0, lenDec=ld, method=method)
+        t.sun_moon_cut = False
+        dark = dark_of(np.arange(M + 5)[t.horizon_mask][t.volume_mask]) if method == "Optical" else np.ones(M, dtype=bool)
+        ed = np.sum(area * 0.826 * keep[2] * (keep[0] >= 2.0) * dark) / len(t.times)
+        if abs(d1[0] - ed) > 1e-9 * abs(ed):
+            bad.append(f"target ({method}): with the dark-sky cut enabled the integral is {d1[0]}, the estimator with each event's own dark-sky verdict gives {ed}"
+                       + ("" if method == "Optical" else " (the cut must not apply to the radio channel)"))
         with np.errstate(all="ignore"):
             a3 = t.mcintegral(trig, cosc, pex, 2.0, 4.0, 0.25, lenDec=ld, method=method)
         if abs(a3[0] - e) > 1e-9 * abs(e):
